@@ -163,6 +163,8 @@ def _partition(case, bad):
     P = numpy.vstack([X, grid])
     clf = case["est"] == "clf"
     cnt = ntriv = 0
+    from checks.catalog import layouts as K_layouts
+    first_ys = next((v for v in case["ys"] if not clf or len(set(v)) >= 2), None)
     for ys in case["ys"]:
         if clf and len(set(ys)) < 2:
             continue
@@ -171,9 +173,16 @@ def _partition(case, bad):
         for bname in case["binners"]:
             for wflag in (False, True):
                 w = (1.0 + numpy.arange(n) % 3) if wflag else None
-                for real in (False, True):
-                    desc = "design=%s y=%r binner=%s weights=%s estimator=%s" % (
-                        case["design"], y.tolist(), bname, wflag, ("real" if real else "recorder") + ("-clf" if clf else "-reg"))
+                forms = [("", X, y, w)]
+                if ys is first_ys:
+                    pair = {"Fortran order": "column of a C-ordered table", "strided window of a larger table": "every second element",
+                            "negative strides": "negative stride", "transposed window": "column of a C-ordered table", "read-only": "read-only"}
+                    for nm_, Xl_ in K_layouts(X)[1:]:
+                        forms.append((" training set stored as: " + nm_, Xl_, dict(K_layouts(y))[pair[nm_]],
+                                      None if w is None else dict(K_layouts(w))[pair[nm_]]))
+                for real, (fdesc, Xfit, yfit, wfit) in itertools.product((False, True), forms):
+                    desc = "design=%s y=%r binner=%s weights=%s estimator=%s%s" % (
+                        case["design"], y.tolist(), bname, wflag, ("real" if real else "recorder") + ("-clf" if clf else "-reg"), fdesc)
                     cond = "%s,%s" % ("classifier" if clf else "regressor", "tree binner" if bname.startswith("tree") else "discretizer binner")
                     if clf:
                         est = LogisticRegression() if real else RecClf()
@@ -184,12 +193,12 @@ def _partition(case, bad):
                     X0, y0 = X.copy(), y.copy()
                     numpy.random.seed(0)
                     try:
-                        model.fit(X, y, sample_weight=w)
+                        model.fit(Xfit, yfit, sample_weight=wfit)
                     except Exception as ex:
                         bad("fit raises %s" % type(ex).__name__, cond, "%s %s" % (str(ex)[:200], desc))
                         continue
                     cnt += 1
-                    if not (numpy.array_equal(X, X0) and numpy.array_equal(y, y0)):
+                    if not (numpy.array_equal(Xfit, X0) and numpy.array_equal(yfit, y0)):
                         bad("training data modified", cond, desc)
                     codes = _codes(model, X)
                     pcodes = _codes(model, P)
